@@ -8,7 +8,7 @@ Definition c27_pr : expr -> option (list token) := pr gen_op_string gen_bin_prec
 Definition c27_parse : list token -> option expr := parse gen_bin_prec gen_un_prec gen_unary_tokens gen_binary_tokens.
 Definition c27_wf : expr -> bool := wf gen_op_string gen_bin_prec gen_unary_tokens gen_binary_tokens.
 Definition c27_print_string (atoms : list (N * bytes)) (e : expr) : option bytes :=
-  print_string gen_op_string gen_bin_prec gen_un_prec gen_OperatorReceive gen_OperatorExtendedNot atoms e.
+  render_string gen_op_string gen_bin_prec gen_un_prec gen_OperatorReceive gen_OperatorExtendedNot atoms e.
 
 (* parse (tokens (print e)): None when printing panics, Some None on a syntax error *)
 Definition c27_roundtrip (e : expr) : option (option expr) :=
